@@ -46,7 +46,8 @@ def handle : List String → Option String
       let back := match Obj.readObj (Obj.tokenize (Obj.render ls)) with
         | none => "0"
         | some (vs, fs) => "1 " ++ showList (showList escape) vs ++ " " ++ showFaces fs
-      some ("ok " ++ escape (Obj.render ls) ++ " " ++ back)
+      -- second field: the Boolean hypothesis of `C10_obj_roundtrip_chars` evaluated on this input
+      some ("ok " ++ escape (Obj.render ls) ++ " " ++ showBool (Obj.vertsOKB verts) ++ " " ++ back)
   | "c10.objread" :: rest => do
     let txt ← run str rest
     match Obj.readObj (Obj.tokenize txt) with
